@@ -198,6 +198,24 @@ pub fn c04(cx: &mut Ctx) {
             }
         }
     }
+    // the single-call API: is_finished() / into_receive() against the same accounting
+    for n in [0usize, 1, 3, 7, 70000] {
+        for k in [0usize, 1, 3, 7] {
+            if k > n { continue; }
+            for overshoot in [false, true] {
+                cx.case("callinto");
+                if cx.rec.new_call("body", &format!("POST HTTP/1.1 http://a.test/p {}", super::hdrs(&[("content-length", n.to_string().as_bytes())]))) != "ok" { continue; }
+                cx.op("cfinished");
+                cx.op("cbwrite - 4096");
+                cx.op("cfinished");
+                if k > 0 { cx.op(&format!("cbwrite {} 64", hx(&vec![b'q'; k]))); }
+                if overshoot { cx.op(&format!("cbwrite {} 64", hx(&vec![b'z'; n - k + 1]))); }
+                cx.op("cfinished");
+                if k == n { cx.op("cbwrite - 8"); cx.op("cfinished"); }
+                cx.op("cinto");
+            }
+        }
+    }
     // large N
     for n in [255u64, 256, 65535, 65536, 70000, 4294967295, 4294967297, 18446744073709551615] {
         for _ in 0..4 {
